@@ -102,7 +102,7 @@ def run(ctx):
         if name.startswith('K-UPD(pairs)'):
             c = ctx.components.pop(name)
             for f in ('cases', 'compared_tokens', 'mismatches', 'crashes', 'wall_s'):
-                merged[f] += c[f]
+                merged[f] += c.get(f, 0)
     ctx.components['K-UPD(pairs)'] = merged
     ctx.oracle.update({'evaluations': n_eval, 'distinct_nontrivial': len(keys), 'rounds': rounds, 'pairs': npairs,
                        'rule': 'pairs of implementation runs from the same memberships: assortative model with a diagonal start (zeros allowed, values around 1e-6) vs general model with its embedding, iterated for several sweeps each from its own state; memberships, diagonals and likelihoods within 1e-10 relative, off-diagonals exactly 0; directed and undirected. distinct = (direction, regime, iteration number)'})
